@@ -143,7 +143,7 @@ fn avx2() -> Pipeline<Dna, Avx2> {
 
 //@ C08 thorough 7200 to_discrete + DiscreteMatrix::score_position + scale, M=2, wildcard column -inf
 harness!(none, 8, c08_position_m2, position_body::<2, 0>());
-//@ C08 thorough 7200 to_discrete + generic u8 scoring (C=4), M=2, wildcard on the lattice
+//@ C08 quick 800 to_discrete + generic u8 scoring (C=4), M=2, wildcard on the lattice
 harness!(none, 8, c08_generic_m2_wild, pipeline_body::<U4, _, 2, 1, 0>(&generic()));
 //@ C08 thorough 7200 to_discrete + AVX2 u8 scoring, M=2, window in the upper 128-bit lane (column 17)
 harness!(avx2, 34, c08_avx2_m2_at17, pipeline_body::<U32, _, 2, 0, 17>(&avx2()));
